@@ -4,11 +4,12 @@ from __future__ import annotations
 import os
 
 from .. import dispatch_h as H
+from .. import mcp_content_h as MC
 from ..core import canon
 from ..runner import Suite
 
 MANIFEST = dict(
-    text="Lean 4 theorems about a model of ProtocolHandler.handle_message in which building an envelope with a null id IS raising: for EVERY method table and message the repaired dispatcher never raises and returns no response to a notification (registered or not, failing or not); every request gets exactly one response with its id (JSON type included) for every table whose handlers answer the request they are given, with exactly -32601 for an unregistered method and -32603 when the handler raises or returns a non-pair; on an MCPServer with arbitrary tools/resources/custom methods (returns / raises / returns nonsense) that holds with no hypothesis on them but one (a custom method that deliberately returns (None, None)), with -32602 for an unknown tool or resource and -32603 for a failing one; the pinned commit's dispatcher is refuted by a theorem with the concrete inputs. Tied to the code by a correspondence run through the real MCPServer/ProtocolHandler exactly as a stdio server loop drives them.",
+    text="Lean 4 theorems about a model of ProtocolHandler.handle_message in which building an envelope with a null id IS raising: for EVERY method table and message the repaired dispatcher never raises and returns no response to a notification (registered or not, failing or not); every request gets exactly one response with its id (JSON type included) for every table whose handlers answer the request they are given, with exactly -32601 for an unregistered method and -32603 when the handler raises or returns a non-pair; on an MCPServer with arbitrary tools/resources/custom methods (returns / raises / returns nonsense) that holds with no hypothesis on them but one (a custom method that deliberately returns (None, None)), with -32602 for an unknown tool or resource and -32603 for a failing one; the pinned commit's dispatcher is refuted by a theorem with the concrete inputs. Tied to the code by a correspondence run through the real MCPServer/ProtocolHandler exactly as a stdio server loop drives them. Second layer (Model/McpServer.lean): the CONTENT of MCPServer's own handlers — registries as insertion-ordered dicts, tools/list, tools/call with argument passing and _format_content, resources/list/read, ping, the initialize result, a log of the application handlers run — with theorems (listing = registered tools in first-registration order with the latest data; the named handler runs once with exactly the given arguments; unknown names run nothing; every result is an object, every content block a text block; registrations after any traffic are listed; capabilities are the constructor's) and a proof that the dispatcher-level model is an abstraction of it; tied by scenarios on a real MCPServer with recording handlers (content differences informational).",
     note="Trusted: Lean kernel, the harness. Outside the statements: a register_method handler that returns the pair (None, sid) for a request — the repository's suite pins that the dispatcher forwards it (test_handler_returning_none) — or a response object of its own making (foreign id); messages the envelope class rejects never reach dispatch. BaseException (cancellation, SystemExit) raised by a handler is not 'a handler raises'.",
     technique="Lean 4 proof over an Except-valued dispatcher model (case analysis, decide for the refutation witness) + differential correspondence run against the real server",
     design="5/C08",
@@ -22,6 +23,18 @@ THEOREMS = [
     "c08_server_one_response",
     "c08_tool_resource_codes",
     "c08_pinned_code_violates",
+    # second layer: the content of the library's handlers (Model/McpServer.lean)
+    "c08_tools_list_exact",
+    "c08_register_same_name_keeps_latest",
+    "c08_tools_call_invokes_exactly",
+    "c08_unknown_name_runs_nothing",
+    "c08_resources_read_exact",
+    "c08_results_are_objects",
+    "c08_content_blocks_are_text",
+    "c08_format_content",
+    "c08_registration_visible_after_serving",
+    "c08_initialize_result",
+    "c08_content_refines_dispatch",
 ]
 RULE = (
     "hardening sweep: falsy values (ids 0 / 0.0 / '', tool name '' and uri '' registered, falsy tool/resource/custom results, falsy "
@@ -576,5 +589,212 @@ class Sequences(Suite):
                     yield dict(case, seq=seq[:i] + [{a: b for a, b in st.items() if a != k}] + seq[i + 1:])
 
 
+# ---- second layer: content of MCPServer's handlers ---------------------------------------------
+
+CONTENT_NOTES: list = []  # informational divergences (content the property text does not fix)
+
+C_NAMES = ["echo", "add", "echo", "", "t/1", "Ünï", "list"]
+C_URIS = ["file:///a/b.txt", "file:///a/", "plain", "", "file:///a/b.txt", "mem://x/y/z"]
+BUILTIN_METHODS = {"ping", "initialize", "tools/list", "tools/call", "resources/list", "resources/read", "notifications/initialized"}
+
+
+def rand_pyval(rng, depth=0):
+    r = rng.random()
+    if depth < 2 and r < 0.25:
+        return {"list": [rand_pyval(rng, depth + 1) for _ in range(rng.randint(0, 3))]}
+    if r < 0.5:
+        return {"str": rng.choice(["", "text", "Ünï\n", "%s {0}", "0"])}
+    if r < 0.7:
+        return {"dict": rng.choice([{}, {"a": 1}, {"k": [1, {"x": None}], "s": "é"}, {"": ""}]), "ok": rng.random() < 0.85}
+    if r < 0.95:
+        return {"other": rng.choice(["5", "None", "True", "0.5", "(1, 2)", "", "b''"])}
+    return {"unprintable": True}
+
+
+def rand_scenario(rng):
+    ops = []
+    n = rng.randint(2, 9)
+    caps = rng.choice([None, None, {"tools": {"listChanged": True}}, {"resources": {"subscribe": False}, "logging": {}}])
+
+    def message():
+        r = rng.random()
+        mid = rng.choice([0, 1, -3, "", "r", "7", None, None])
+        if r < 0.18:
+            me, params = "tools/list", rng.choice([None, {}, {"cursor": "x"}])
+        elif r < 0.5:
+            name = rng.choice(C_NAMES + ["nosuch", 5, None, ["echo"], "<absent>"])
+            params = {} if name == "<absent>" else {"name": name}
+            a = rng.choice(["<absent>", {}, {"text": "x"}, {"text": None, "n": 0}, {"other": [1]}, None, [1], "s", {"a": {"b": []}}])
+            if a != "<absent>":
+                params["arguments"] = a
+            me = "tools/call"
+        elif r < 0.6:
+            me, params = "resources/list", rng.choice([None, {}])
+        elif r < 0.78:
+            uri = rng.choice(C_URIS + ["file:///nosuch", 7, None, {"u": 1}, "<absent>"])
+            me, params = "resources/read", ({} if uri == "<absent>" else {"uri": uri})
+        elif r < 0.85:
+            me, params = "ping", None
+        elif r < 0.93:
+            me = "initialize"
+            params = rng.choice([None, {}, {"protocolVersion": "2025-06-18", "clientInfo": {"name": "c"}}, {"protocolVersion": "1999-01-01"},
+                                 {"protocolVersion": 5}])
+        else:
+            me, params = rng.choice(["nosuch/method", "prompts/list", "logging/setLevel", "notifications/initialized", "notifications/cancelled"]), {}
+        msg = {"jsonrpc": "2.0", "method": me}
+        if mid is not None:
+            msg["id"] = mid
+        if params is not None:
+            msg["params"] = params
+        return ["msg", msg]
+
+    for _ in range(n):
+        r = rng.random()
+        if r < 0.3:
+            out = {"raises": True} if rng.random() < 0.15 else rand_pyval(rng)
+            ops.append(["tool", rng.choice(C_NAMES), {"sig": rng.choice([None, None, ["text"], ["text", "n"], []]), "out": out,
+                                                      "schema": rng.choice([{}, {"type": "object"}, {"type": "object", "properties": {"text": {"type": "string"}}}, None]),
+                                                      "description": rng.choice(["", "d", "Ünï %s"])}])
+        elif r < 0.45:
+            spec = {"out": {"fails": True} if rng.random() < 0.2 else {"text": rng.choice(["", "T", "line\n2", "%s"])}}
+            if rng.random() < 0.6:
+                spec["name"] = rng.choice(["", "named", "Ünï"])
+            if rng.random() < 0.5:
+                spec["description"] = rng.choice(["", "desc"])
+            if rng.random() < 0.5:
+                spec["mime"] = rng.choice(["text/plain", "application/json", ""])
+            ops.append(["resource", rng.choice(C_URIS), spec])
+        else:
+            ops.append(message())
+    # always end by listing, so that every registration above is observed
+    ops += [["msg", {"jsonrpc": "2.0", "id": "tl", "method": "tools/list"}], ["msg", {"jsonrpc": "2.0", "id": "rl", "method": "resources/list"}]]
+    sc = {"ops": ops}
+    if caps:
+        sc["caps"] = caps
+    return sc
+
+
+def content_oracle(sc, o):
+    """the property text on one scenario: every request answered once with its id, no notification answered, the code table"""
+    if o.get("harness_error"):
+        return ("raises-in-scenario", f"an operation of the scenario raised: {o['harness_error']}", None)
+    tools, resources, k = {}, {}, 0
+    for op in sc["ops"]:
+        if op[0] == "tool":
+            tools[op[1]] = op[2]
+        elif op[0] == "resource":
+            resources[op[1]] = op[2]
+        else:
+            msg, r = op[1], o["resps"][k]
+            k += 1
+            if r == "<not a pair>":
+                return ("returns-non-pair", f"message {k}: handle_message did not return a pair", None)
+            if "id" not in msg:
+                if r is not None:
+                    return ("notification-answered", f"message {k} {msg}: a notification was answered", {"response": None})
+                continue
+            if r is None:
+                return ("request-unanswered", f"message {k} {msg}: no response", {"response": "one, with the id"})
+            if not _same_id(r.get("id"), msg["id"]):
+                return ("response-id", f"message {k}: response id {r.get('id')!r} for request id {msg['id']!r}", {"id": msg["id"]})
+            if ("error" in r) == ("result" in r):
+                return ("response-shape", f"message {k}: response {r}", None)
+            me, params = msg["method"], msg.get("params")
+            want = None
+            if me not in BUILTIN_METHODS:
+                want = -32601
+            elif me == "tools/call" and isinstance(params, dict) and isinstance(params.get("name"), str):
+                spec = tools.get(params["name"])
+                want = -32602 if spec is None else (-32603 if "raises" in spec["out"] else None)
+            elif me == "resources/read" and isinstance(params, dict) and isinstance(params.get("uri"), str):
+                spec = resources.get(params["uri"])
+                want = -32602 if spec is None else (-32603 if "fails" in spec["out"] else None)
+            if want is not None and r.get("error") != want:
+                return ("wrong-code/content", f"message {k} {msg}: answered {r}, the property demands error {want}", {"code": want})
+    return None
+
+
+class Content(Suite):
+    """MCPServer's own handlers with recording application handlers vs Model/McpServer.lean: full results (tools/list,
+    resources/list, tools/call content, resources/read contents, initialize), responses and the log of handlers run"""
+    name = "content"
+
+    def cases(self, ctx, budget):
+        rng = ctx.sub_rng("c08content", budget)
+        fixed = [
+            {"ops": [["tool", "a", {"sig": None, "out": {"str": "1"}, "schema": {}, "description": "first"}],
+                     ["tool", "b", {"sig": None, "out": {"str": "2"}, "schema": {}, "description": ""}],
+                     ["msg", {"jsonrpc": "2.0", "id": 1, "method": "initialize", "params": {"protocolVersion": "2025-06-18"}}],
+                     ["tool", "a", {"sig": ["text"], "out": {"list": [{"str": "x"}, {"list": [{"dict": {"k": 1}}, {"other": "5"}]}]}, "schema": {"type": "object"}, "description": "again"}],
+                     ["tool", "c", {"sig": [], "out": {"raises": True}, "schema": None, "description": "late"}],
+                     ["msg", {"jsonrpc": "2.0", "id": 2, "method": "tools/list"}],
+                     ["msg", {"jsonrpc": "2.0", "id": 3, "method": "tools/call", "params": {"name": "a", "arguments": {"text": "t"}}}],
+                     ["msg", {"jsonrpc": "2.0", "id": 4, "method": "tools/call", "params": {"name": "a", "arguments": {"nope": 1}}}],
+                     ["msg", {"jsonrpc": "2.0", "method": "tools/call", "params": {"name": "b", "arguments": {"x": [1, {"y": None}]}}}],
+                     ["msg", {"jsonrpc": "2.0", "id": 5, "method": "tools/call", "params": {"name": "c"}}],
+                     ["msg", {"jsonrpc": "2.0", "id": 6, "method": "tools/call", "params": {"name": "zzz", "arguments": {"x": 1}}}]]},
+            {"caps": {"tools": {"listChanged": True}, "resources": {"listChanged": False}},
+             "ops": [["resource", "file:///d/e.txt", {"out": {"text": "E"}}],
+                     ["resource", "file:///d/", {"out": {"text": ""}, "name": "", "mime": "application/json"}],
+                     ["resource", "file:///d/e.txt", {"out": {"fails": True}, "name": "renamed", "description": "x"}],
+                     ["msg", {"jsonrpc": "2.0", "id": "a", "method": "resources/list"}],
+                     ["msg", {"jsonrpc": "2.0", "id": "b", "method": "resources/read", "params": {"uri": "file:///d/"}}],
+                     ["msg", {"jsonrpc": "2.0", "id": "c", "method": "resources/read", "params": {"uri": "file:///d/e.txt"}}],
+                     ["msg", {"jsonrpc": "2.0", "method": "resources/read", "params": {"uri": "file:///d/"}}],
+                     ["msg", {"jsonrpc": "2.0", "id": "d", "method": "initialize"}],
+                     ["msg", {"jsonrpc": "2.0", "id": "e", "method": "ping"}]]},
+        ]
+        return fixed + [rand_scenario(rng) for _ in range(700 if budget == "quick" else 12000)]
+
+    def impl_batch(self, cases):
+        obs = [MC.run_scenario(c) for c in cases]
+        self._last = {id(c): o for c, o in zip(cases, obs)}
+        return obs
+
+    def model_line(self, case):
+        o = self._last.get(id(case))
+        return None if o is None else MC.model_line(case, o)
+
+    def compare(self, case, o, m):
+        if "driver_error" in m:
+            return "driver error"
+        norm = MC.normalise_impl(case, o)
+        if canon(MC.shape(norm["resps"])) != canon(MC.shape(m["resps"])):
+            return "responses differ in what the property names"  # presence, id, result / error code
+        if canon(norm) != canon({"resps": m["resps"], "log": m["log"]}):
+            # content the property text does not fix (listing order, content blocks, which handler ran): informational
+            if len(CONTENT_NOTES) < 5:
+                CONTENT_NOTES.append({"scenario": case, "impl": norm, "model": m})
+            elif len(CONTENT_NOTES) == 5:
+                CONTENT_NOTES.append({"more": True})
+        return None
+
+    def oracle(self, case, o):
+        return content_oracle(case, o)
+
+    def kind(self, case, o):
+        ms = {op[1]["method"] for op in case["ops"] if op[0] == "msg"}
+        return "content/" + ("reregistration/" if len({op[1] for op in case["ops"] if op[0] == "tool"}) < sum(1 for op in case["ops"] if op[0] == "tool") else "") \
+            + "+".join(sorted(x.split("/")[-1] for x in ms & {"tools/call", "resources/read", "initialize"}))
+
+    def nontrivial(self, case, o):
+        return bool(o.get("log"))
+
+    def shrink_candidates(self, case):
+        ops = case["ops"]
+        for i in range(len(ops)):
+            yield dict(case, ops=ops[:i] + ops[i + 1:])
+
+
+def extra(ctx, tier):
+    """supplementary (content-level) correspondence: differences are reported as notes, not as violations"""
+    if CONTENT_NOTES:
+        ctx.notes.append("INFORMATIONAL: the content-level model of MCPServer's handlers (Model/McpServer.lean) differs from the code "
+                         "on %s scenario(s) in results the property text does not fix; first: %s"
+                         % ("5+" if len(CONTENT_NOTES) > 5 else len(CONTENT_NOTES), canon(CONTENT_NOTES[0])[:1500]))
+        print(f"# C08 content-level model: {len(CONTENT_NOTES)} informational difference(s), see evidence notes")
+        del CONTENT_NOTES[:]
+
+
 def suites():
-    return [Dispatch(), Sequences()]
+    return [Dispatch(), Sequences(), Content()]
